@@ -840,47 +840,75 @@ class UDSServerTransport:
 
 
 class TCPUDSServerTransport(UDSServerTransport):
+    def __init__(self, server: UDSServer, target: TargetURI):
+        super().__init__(server, target)
+        self._client_writers: set[asyncio.StreamWriter] = set()
+
     async def handle_client(
         self,
         reader: asyncio.StreamReader,
         writer: asyncio.StreamWriter,
     ) -> None:
         logger.info("New connection")
+        self._client_writers.add(writer)
         response_times = []
 
-        while True:
-            try:
-                line = await reader.readline()
+        try:
+            while True:
+                try:
+                    line = await reader.readline()
 
-                if not line.endswith(b"\n"):
-                    # EOF; an unterminated rest of a line is not a request
+                    if not line.endswith(b"\n"):
+                        # EOF; an unterminated rest of a line is not a request
+                        break
+
+                    tcp_request = line.decode("ascii").strip()
+                    uds_request_raw = unhexlify(tcp_request)
+                    uds_response_raw, response_time = await self.handle_request(uds_request_raw)
+                    response_times.append(response_time)
+
+                    if uds_response_raw is not None:
+                        writer.write(hexlify(uds_response_raw) + b"\n")
+                        await writer.drain()
+                except Exception as e:
+                    logger.error(
+                        f"Unexpected exception when handling client communication: {e!r}"
+                    )
+                    traceback.print_exc()
                     break
-
-                tcp_request = line.decode("ascii").strip()
-                uds_request_raw = unhexlify(tcp_request)
-                uds_response_raw, response_time = await self.handle_request(uds_request_raw)
-                response_times.append(response_time)
-
-                if uds_response_raw is not None:
-                    writer.write(hexlify(uds_response_raw) + b"\n")
-                    await writer.drain()
-            except Exception as e:
-                logger.error(f"Unexpected exception when handling client communication: {e!r}")
-                traceback.print_exc()
-                break
+        finally:
+            # The connection is ours to close; since Python 3.12 asyncio.Server.wait_closed()
+            # waits for every connection, so a forgotten one keeps the server from stopping.
+            self._client_writers.discard(writer)
+            writer.close()
 
         logger.info("Connection closed")
-        logger.info(
-            f"Average response time: {sum(response_times) / len(response_times) * 1000:.2f}ms"
-        )
+
+        if len(response_times) > 0:
+            logger.info(
+                f"Average response time: {sum(response_times) / len(response_times) * 1000:.2f}ms"
+            )
+
+    async def serve(self, server: asyncio.Server) -> None:
+        # The server is already accepting connections (start_serving defaults to True).
+        try:
+            await asyncio.get_running_loop().create_future()
+        finally:
+            # Stop listening and drop the clients which are still connected; otherwise
+            # wait_closed() waits for them to hang up by themselves (Python >= 3.12).
+            server.close()
+
+            for writer in list(self._client_writers):
+                writer.close()
+
+            await server.wait_closed()
 
     async def run(self) -> None:
         server = await asyncio.start_server(
             self.handle_client, self.target.hostname, self.target.port
         )
 
-        async with server:
-            await server.serve_forever()
+        await self.serve(server)
 
 
 if sys.platform.startswith("linux"):
@@ -909,5 +937,4 @@ if sys.platform.startswith("linux") or sys.platform == "darwin":
         async def run(self) -> None:
             server = await asyncio.start_unix_server(self.handle_client, self.target.path)
 
-            async with server:
-                await server.serve_forever()
+            await self.serve(server)
